@@ -22,11 +22,25 @@ def key(c):
     nodes = tuple(sorted((n, g.nodes[n].get("type"), bool(g.nodes[n].get("output", False))) for n in g.nodes))
     edges = tuple(sorted(g.edges))
     bbs = tuple(sorted((k, b.name, tuple(sorted(b.input_set)), tuple(sorted(b.output_set))) for k, b in c.blackboxes.items()))
-    return (nodes, edges, bbs)
+    return (nodes, edges, bbs) + hidden_key(c)
+
+
+_PUBLIC = ("graph", "blackboxes", "name")
+
+
+def hidden_key(c):
+    """Instance attributes beyond graph / blackboxes / name (none on the unmodified tree).  A change that keeps a
+    dirty flag or a memo on the object gives two states with one visible circuit different futures, so they must not
+    be merged; on the unmodified tree this is () and the key is what it always was."""
+    extra = {k: v for k, v in vars(c).items() if k not in _PUBLIC}
+    if not extra:
+        return ()
+    return (tuple(sorted((k, repr(v)) for k, v in extra.items())),)
 
 
 def clone(c, cg=None):
-    """Independent copy that does not go through Circuit.copy()."""
+    """Independent copy that does not go through Circuit.copy().  Hidden instance attributes (see hidden_key) are
+    carried over by deep copy: the clone stands for the same object after the same history."""
     if cg is None:
         import circuitgraph as cg
     g = nx.DiGraph()
@@ -37,6 +51,10 @@ def clone(c, cg=None):
     out = cg.Circuit(name=c.name)
     out.graph = g
     out.blackboxes = dict(c.blackboxes)
+    for k, v in vars(c).items():
+        if k not in _PUBLIC:
+            import copy
+            out.__dict__[k] = copy.deepcopy(v)
     return out
 
 
